@@ -154,6 +154,23 @@ pub fn json_str_alts(default: &str) -> Vec<String> {
 }
 
 pub fn gen_java(c: &mut Chooser) -> JavaState {
+    let mut s = gen_java_unpadded(c);
+    // lengths whose VarInt has a 0x80 byte (a non-final group of seven zero bits): the JSON text itself (128 k bytes) or the
+    // whole packet (JSON of 128 k - 3 bytes); a textual description is lengthened until the text has that size
+    if let Some(target) = pick(c, &[None, Some(256usize), Some(253), Some(384), Some(381), Some(16384), Some(16381)]) {
+        let len = s.json().to_string().len();
+        let mut n = target;
+        while n < len {
+            n += 128;
+        }
+        if let Description::Text(t) = &mut s.description {
+            t.push_str(&"x".repeat(n - len));
+        }
+    }
+    s
+}
+
+fn gen_java_unpadded(c: &mut Chooser) -> JavaState {
     JavaState {
         version_name: pick(c, &json_str_alts("1.20.4")),
         protocol: pick(c, &i32_alts(765)),
